@@ -436,6 +436,8 @@ type World struct {
 	Ancestors []IONode
 	// LibSeed is the seed the library's random source was given before the world was built
 	LibSeed int64
+	// Reconfigured counts the option changes made between epochs
+	Reconfigured int
 	// Checkpoints counts the save / restore steps taken in mid-run
 	Checkpoints int
 	// ConstructErr is set when the constructor itself failed
@@ -547,6 +549,36 @@ func (w *World) Checkpoint() error {
 	return nil
 }
 
+// Reconfigure replaces the world's options by a new Options object with some settings changed (never the population
+// size) and a new context carrying it: a caller may tune a run between epochs. It returns what changed.
+func (w *World) Reconfigure() string {
+	t := w.T
+	o := *w.Opts
+	what := ""
+	switch t.Draw("reconf.kind", 5) {
+	case 0:
+		o.SurvivalThresh = 0.01 + 0.99*t.Float("reconf.surv")
+		what = fmt.Sprintf("surv=%.3g", o.SurvivalThresh)
+	case 1:
+		o.AgeSignificance = 1 + 2*t.Float("reconf.age")
+		what = fmt.Sprintf("ageSig=%.3g", o.AgeSignificance)
+	case 2:
+		o.DropOffAge = t.Range("reconf.dropoff", 1, 20)
+		what = fmt.Sprintf("dropoff=%d", o.DropOffAge)
+	case 3:
+		o.CompatThreshold = 0.2 + 6*t.Float("reconf.thr")
+		what = fmt.Sprintf("thr=%.3g", o.CompatThreshold)
+	case 4:
+		o.MutateAddNodeProb, o.MutateAddLinkProb, o.MateOnlyProb = t.Float("reconf.an")*0.6, t.Float("reconf.al")*0.8, t.Float("reconf.mo")
+		what = "mutation rates"
+	}
+	w.Opts = &o
+	w.Cancel()
+	w.Ctx, w.Cancel = context.WithCancel(neat.NewContext(context.Background(), w.Opts))
+	w.Reconfigured++
+	return what
+}
+
 // Describe is a stable one-line description of the world.
 func (w *World) Describe() string {
 	ln := ""
@@ -569,10 +601,12 @@ const (
 	LandDistinct
 	LandHuge
 	LandOscillate
+	LandTiny
+	LandTiesPositive
 	numLands
 )
 
-var landNames = []string{"const", "zero", "uniform", "heavy", "dominant", "ties", "structural", "distinct", "huge", "oscillate"}
+var landNames = []string{"const", "zero", "uniform", "heavy", "dominant", "ties", "structural", "distinct", "huge", "oscillate", "tiny", "ties-positive"}
 
 // Landscape assigns finite, non-negative fitness deterministically from (seed, generation, index, genome shape).
 type Landscape struct {
@@ -628,6 +662,12 @@ func (l *Landscape) Fitness(gen, idx int, g *genetics.Genome) float64 {
 	case LandOscillate:
 		// best fitness rises and falls so that stagnation counters reset and fire
 		return (1 + r.Float()) * (1 + float64(gen%4))
+	case LandTiny:
+		// positive but at the bottom of the float64 range (subnormal and just above): ratios are ordinary, reciprocals overflow
+		return (1 + r.Float()*9) * 1e-309
+	case LandTiesPositive:
+		// few distinct positive values: exact ties everywhere, also across the parent cut of a species
+		return float64(1 + r.Intn(3))
 	}
 	return 1
 }
@@ -640,4 +680,4 @@ func (w *World) AssignFitness() {
 }
 
 // PositiveLands are the landscapes with at least one positive value guaranteed.
-var PositiveLands = []int{LandConst, LandUniform, LandHeavy, LandDominant, LandStructural, LandDistinct, LandHuge, LandOscillate}
+var PositiveLands = []int{LandConst, LandUniform, LandHeavy, LandDominant, LandStructural, LandDistinct, LandHuge, LandOscillate, LandTiny, LandTiesPositive}
